@@ -66,11 +66,12 @@ pub fn run(args: &Args, rep: &mut Report) {
         ledger::reset();
         ledger::zst_reset();
         rep.ctx = format!("vecdiff program {} (seed {} shard {})", it, args.seed, args.shard);
-        let bump = match pseed % 4 {
+        let mut bump = match pseed % 4 {
             0 => Bump::with_capacity(((pseed >> 20) % 4000) as usize),
             _ => Bump::new(),
         };
         let mut sig = 0u64;
+        let mut raw_blocks: Vec<(usize, usize)> = Vec::new();
         {
             let b = &bump;
             let mut pairs: Vec<Box<dyn PairDyn + '_>> = Vec::new();
@@ -169,6 +170,21 @@ pub fn run(args: &Args, rep: &mut Report) {
             }
             drop(boxes);
             drop(nstr);
+            raw_blocks.extend(canaries.iter().map(|(p, n, _)| (*p as usize, *n)));
+        }
+        // C10 / C01 after every container of this arena is gone: the raw slices allocated in between are
+        // live blocks and still lie inside the allocated part of exactly one chunk
+        {
+            let slices: Vec<(usize, usize)> = unsafe { bump.iter_allocated_chunks_raw() }.map(|(p, l)| (p as usize, l)).collect();
+            for (p, n) in &raw_blocks {
+                let inside = slices.iter().filter(|(cp, cl)| *cp <= *p && *p + *n <= *cp + *cl).count();
+                if inside != 1 {
+                    rep.violate("C10", "C10/iter/live-raw-block-outside-the-allocated-region-after-the-containers-were-dropped", format!("block [{:#x}, +{}) lies in {} of {} chunk slices", p, n, inside, slices.len()));
+                    rep.violate("C01", "C01/collections/dropping-containers-released-memory-of-a-live-raw-block", format!("block [{:#x}, +{}) lies in {} of {} chunk slices", p, n, inside, slices.len()));
+                    break;
+                }
+            }
+            rep.add("c10.raw_blocks_located_after_container_drops", raw_blocks.len() as u64);
         }
         // end of program: what is still alive on each side must agree (intentional leaks only)
         let la: Vec<u32> = {
